@@ -473,6 +473,9 @@ def minimize_lbfgsb(
 
     if len(X) > 0:
         # only happens if checkpoint is provided (L-BFGS-B restart)
+        if update_fun_def is not None:
+            # the gradient sequence may have been rewritten: filter it
+            X, G = make_X_and_G_respect_strong_wolfe(X, G, eps_SY, logger=logger)
         mats = update_lbfgs_matrices(
             x.copy(),  # copy otherwise x might be changed in X when updated
             grad,
